@@ -73,7 +73,7 @@ func settle(fds []int) {
 	}
 }
 
-var udpHandle = []string{"read-all+write", "nothing+write", "next1+write", "peek1+write", "discard1+write", "read-all+sendto-other", "read-all+asyncwrite", "read-all+none", "read-all+sendto-other-then-write"}
+var udpHandle = []string{"read-all+write", "nothing+write", "next1+write", "peek1+write", "discard1+write", "read-all+sendto-other", "read-all+asyncwrite", "read-all+none", "read-all+sendto-other-then-write", "read-all+sendto-each-reused-addr"}
 
 func udpPort() int { return 20000 + (os.Getpid()%5000)*4 }
 
@@ -186,6 +186,26 @@ func udpWorld(c udpCfg) *world {
 					w.violate("udp:write", "Write(%d bytes) after SendTo = %d, %v", len(reply), m, err)
 				}
 				sp.want++
+			}
+		case "sendto-each-reused-addr":
+			// one reply to every known peer through ONE address variable changed in place between the
+			// calls (what a handler looping over its peers does): each SendTo goes to the address its
+			// argument holds at the time of the call
+			ua := &net.UDPAddr{}
+			for _, o := range peers {
+				if o == nil || o.addr == nil {
+					continue
+				}
+				switch a := o.addr.(type) {
+				case *unix.SockaddrInet4:
+					ua.IP, ua.Port = append(ua.IP[:0], a.Addr[:]...), a.Port
+				case *unix.SockaddrInet6:
+					ua.IP, ua.Port = append(ua.IP[:0], a.Addr[:]...), a.Port
+				}
+				if m, err := cn.SendTo(reply, ua); err != nil || m != len(reply) {
+					w.violate("udp:sendto", "SendTo(%d bytes) = %d, %v", len(reply), m, err)
+				}
+				o.want++
 			}
 		case "asyncwrite":
 			_ = cn.AsyncWrite(reply, nil)
